@@ -91,6 +91,9 @@ type replayFile struct {
 	Tail      []string        `json:"tail,omitempty"`
 	Tree      string          `json:"tree,omitempty"`
 	Minimised bool            `json:"minimised"`
+	// Repro: "k/n" when the violation reproduced in k of n replays only (choices of the Go runtime
+	// that no seed controls, e.g. which ready case a select takes, decide the rest).
+	Repro string `json:"reproduced,omitempty"`
 }
 
 type runResult struct {
@@ -713,10 +716,49 @@ func checkProperty(prop, tier string) int {
 		// reproduce twice in fresh processes
 		c1, d1, r1, wo1 := replayOnce(e, prop, v, fmt.Sprintf("v%d-a", v.Seed), false)
 		c2, _, _, _ := replayOnce(e, prop, v, fmt.Sprintf("v%d-b", v.Seed), false)
+		flaky := false
 		if c1 == "" || c2 == "" || classKey(c1) != classKey(c2) {
-			trouble += fmt.Sprintf("violation at seed %d (%s) did not reproduce twice (got %q, %q): nondeterminism or tool trouble\n%s\n%s\n",
-				v.Seed, v.Class, c1, c2, v.Detail, head(wo1.stderr, 3000))
-			continue
+			// not twice in a row: the outcome may hinge on a choice of the Go runtime that no seed
+			// controls (which ready case a select takes). Six more replays; a class that shows up
+			// at least twice in the eight is reported, with its reproduction rate.
+			count := map[string]int{}
+			type rr struct {
+				d string
+				r *runResult
+			}
+			first := map[string]rr{}
+			add := func(c, d string, r *runResult) {
+				if c != "" {
+					k := classKey(c)
+					count[k]++
+					if _, ok := first[k]; !ok {
+						first[k] = rr{d, r}
+					}
+				}
+			}
+			add(c1, d1, r1)
+			add(c2, "", nil)
+			for x := 0; x < 6; x++ {
+				cx, dx, rx, _ := replayOnce(e, prop, v, fmt.Sprintf("v%d-x%d", v.Seed, x), false)
+				add(cx, dx, rx)
+			}
+			best, bn := "", 0
+			for k, n := range count {
+				if n > bn || (n == bn && k < best) {
+					best, bn = k, n
+				}
+			}
+			if bn < 2 {
+				trouble += fmt.Sprintf("violation at seed %d (%s) did not reproduce (got %q, %q, then %v in 6 more replays): nondeterminism or tool trouble\n%s\n%s\n",
+					v.Seed, v.Class, c1, c2, count, v.Detail, head(wo1.stderr, 3000))
+				continue
+			}
+			flaky = true
+			c1, d1, r1 = best, first[best].d, first[best].r
+			if d1 == "" {
+				d1 = v.Detail
+			}
+			v.Repro = fmt.Sprintf("%d/8", bn)
 		}
 		v.Class, v.Detail = c1, d1
 		if r1 != nil {
@@ -730,7 +772,10 @@ func checkProperty(prop, tier string) int {
 		if tier == "thorough" {
 			mb = 180 * time.Second
 		}
-		m := minimise(e, prop, v, mb)
+		m := v
+		if !flaky { // a minimiser needs every candidate's verdict to be repeatable
+			m = minimise(e, prop, v, mb)
+		}
 		m.Tree = e.tree
 		if kf := matchKnown(kfs, prop, m.Class); kf != nil {
 			known = append(known, fmt.Sprintf("KNOWN-FINDING: property=%s %s", prop, kf.text))
@@ -858,6 +903,10 @@ func replayCmd(prop, path string) int {
 	e := build()
 	defer cleanup(e)
 	cl, det, res, wo := replayOnce(e, prop, &rf, "replay", false)
+	for x := 0; cl == "" && rf.Repro != "" && x < 11; x++ {
+		// recorded as reproducing in a fraction of the replays only
+		cl, det, res, wo = replayOnce(e, prop, &rf, fmt.Sprintf("replay%d", x), false)
+	}
 	if cl == "" {
 		if wo.code != 0 && wo.code != 10 {
 			fmt.Fprintf(os.Stderr, "check: replay worker exit %d:\n%s\n", wo.code, head(wo.stderr, 4000))
